@@ -55,3 +55,18 @@ lemma("merge_fold_step", props=["C15"], types=FT,
       hyps=SORTED + " and 0 <= k and k < len(xs) and FoldInv(xs, acc, k, lo, hi) and "
            "post('merge_intervals.<lambda#4>', acc=acc, interval=xs[k], result=acc2, lo=lo, hi=hi)",
       goal="FoldInv(xs, acc2, k + 1, lo, hi)")
+
+# ---- negative numbers: "-" followed by a regex with intervals I yields { -x | x in I } -----------
+NI = "isla/z3_helpers.py::numeric_intervals_from_concat"
+contract(NI + ".<lambda#4>", props=["C15"], types={"interval": IV}, returns=IV,
+         closure={"x": "Int"},
+         requires="interval[0] <= interval[1]",
+         ensures={"negated_set": "In(result, x) == In(interval, 0 - x)", "non_empty": "result[0] <= result[1]"},
+         native="lambda:isla.z3_helpers", crosscheck=False)
+contract(NI + ".<lambda#3>", props=["C15"], types={"list_of_intervals": IVS}, returns=IVS,
+         closure={"x": "Int"},
+         requires="NF(list_of_intervals)",
+         ensures={"normal_form": "NF(result)",
+                  "negated_union": "InAny(result, x) == InAny(list_of_intervals, 0 - x)"},
+         crosscheck=False,
+         note="reversing keeps the normal form because negation reverses the order")
